@@ -3,7 +3,8 @@ CONSTANTS
   MaxN = 4
   Whats = {"ok", "other", "garbage"}
   MaxExtra = 0
+  MaxOver = 1
   Ops = {"vector"}
 VIEW ViewNoHist
 INVARIANTS TypeOK
-PROPERTIES ProofAcceptIffStatement PartAcceptIffOwnIndex ProofQuorum
+PROPERTIES ProofAcceptIffStatement PartAcceptIffOwnIndex ProofQuorum NarrowRejected
